@@ -520,6 +520,7 @@ impl Broker {
                 }
             }
         }
+        self.muxq.retain(|_, q| !q.is_empty());
         if !out.is_empty() {
             let stamp = simrt::stamp();
             let now = simrt::now_ns();
